@@ -9,7 +9,7 @@ must hold nothing live (it would leak).  Every `source.next()` is an unwind poin
 import re
 
 NAME = 'tfi'
-PROPS = ['C03', 'C04', 'C07']
+PROPS = ['C03', 'C04', 'C07', 'C08']
 DROPPED = ('the `&mut` indirection between builder and array (R-guard); core::iter::Zip (documented behaviour: polls the destination first '
            'and does not poll the source once the destination is exhausted); into_iter() of the argument')
 
@@ -25,6 +25,7 @@ def generate(g, ex):
     g.prelude('common.rs')
     g.prelude('slots.rs')
     g.prelude('builder.rs')
+    g.prelude('foreign.rs')
     g.raw('''
 // ===== extracted: src/internal.rs IntrusiveArrayBuilder =====
 // rule R-guard: `array: &'a mut GenericArray<MaybeUninit<T>, N>` becomes the owned slot block
@@ -204,6 +205,51 @@ impl<T, N: ArrayLength> IntrusiveArrayBuilder<T, N> {
                    '|| (exists|k: int| 0 <= k < final(iter).returned().len() && k < N::n() && (#[trigger] final(iter).returned()[k]).is_none()) '
                    '|| (final(iter).returned().len() == N::n() + 1 && final(iter).returned().last().is_some()) )')],
                  stats, n, PROPS))
+
+    # ---- generate (stack and boxed): builder_iter.enumerate().for_each(|(i, dst)| { dst.write(f(i)); *position += 1; }) ----
+    def generate_like(file, impl, vname):
+        f = g.extract_method(file, impl, 'generate')
+        stats = {}
+        body = ex.normalize(f['body'])
+        n = ex.statements(body)
+        body = ex.apply_rules(body, [
+            ('R-misc', r'\bunsafe \{', '{'),
+            ('R-misc', r'use core::mem::MaybeUninit; ', ''),
+            ('R-slots', r'let mut array = GenericArray::<T, N>::uninit\(\);', 'let array = Slots::uninit();'),
+            ('R-box', r'let mut array: Box<GenericArray<MaybeUninit<T>, N>> = Box::<GenericArray<MaybeUninit<T>, N>>::new_uninit\(\)\.assume_init\(\);', 'let array = box_new_uninit();'),
+            ('R-guard', r'IntrusiveArrayBuilder::new\(&mut \*?array\)', 'IntrusiveArrayBuilder::new(array)'),
+            ('R-guard', r'let \(builder_iter, position\) = builder\.iter_position\(\); ', ''),
+            ('R-guard', r'builder\.finish\(\);', 'let ghost b1 = builder.built(); let array = builder.finish();'),
+            ('R-slots', r'IntrusiveArrayBuilder::array_assume_init\(array\)', 'array_assume_init(array)'),
+            ('R-box', r'Box::from_raw\(Box::into_raw\(array\)\.cast\(\)\)', 'box_assume_init(array)'),
+        ], stats)
+        ml = re.search(r'builder_iter\.enumerate\(\)\.for_each\(\|\(i, dst\)\| \{ (.*?) \}\);', body)
+        if not ml:
+            raise ex.Unsupported('%s: builder_iter.enumerate().for_each(|(i, dst)| {..}) not found (rule R-iter)' % vname)
+        inner = ml.group(1)
+        inner, k1 = re.subn(r'dst\.write\(f\(i\)\);', 'proof { assert(builder.wf()) /*OB:%s.unwind@f:C04*/; } let __v = f.call(i); builder.array.put(i, __v);' % vname, inner)
+        inner, k2 = re.subn(r'\*position \+= 1;', 'builder.position += 1;', inner)
+        if k1 != 1 or k2 != 1:
+            raise ex.Unsupported('%s: closure body is not {dst.write(f(i)); *position += 1;}' % vname)
+        stats.update({'R-iter': 1, 'R-write': 1, 'R-foreign': 1})
+        loop = ('let mut __i: usize = 0; while __i < N::usize_() invariant builder.wf(), builder.position == __i, __i <= N::n(), f.log().len() == __i, '
+                'forall|j: int| 0 <= j < __i ==> (#[trigger] f.log()[j]).0 == j && f.log()[j].1 == builder.built()[j], decreases N::n() - __i, { '
+                'let i = __i; let ghost lb = f.log(); let ghost bb = builder.built(); ' + inner +
+                ' __i += 1; proof { assert forall|j: int| 0 <= j < __i implies (#[trigger] f.log()[j]).0 == j && f.log()[j].1 == builder.built()[j] by { '
+                'if j < __i - 1 { assert(f.log()[j] == lb[j]); assert(builder.built()[j] == bb[j]); } } } }')
+        body = body[:ml.start()] + loop + body[ml.end():]
+        body, k = re.subn(r'((?:array_assume_init|box_assume_init)\(array\))', r'({ proof { assert(array.all_live()); assert forall|k: int| 0 <= k < N::n() implies array.view()[k].unwrap() == (#[trigger] f.log()[k]).1 by { assert(f.log()[k].1 == b1[k]); } } \1 })', body, count=1)
+        if k != 1:
+            raise ex.Unsupported('%s: final assume_init not found' % vname)
+        ex.check_supported(vname, body)
+        g.emit_fn(Fn(vname, file, f['line'], f['sig'], 'pub fn %s<T, N: ArrayLength, F: Foreign1<usize, T>>(f: &mut F) -> (ret: GenericArray<T, N>)' % vname, body,
+                     ['old(f).log().len() == 0'],
+                     [('n-calls', ['C08'], 'final(f).log().len() == N::n()'),
+                      ('ascending-and-stored-at-index', ['C08'], 'forall|k: int| 0 <= k < N::n() ==> (#[trigger] final(f).log()[k]).0 == k && ret.elems()[k] == final(f).log()[k].1')],
+                     stats, n, ['C03', 'C04', 'C08']))
+
+    generate_like('src/lib.rs', 'unsafe impl<T, N: ArrayLength> GenericSequence<T> for GenericArray<T, N>', 'generate')
+    generate_like('src/impl_alloc.rs', 'unsafe impl<T, N: ArrayLength> GenericSequence<T> for Box<GenericArray<T, N>>', 'generate_boxed')
     g.raw('proof fn canary() { assert(false); } /*OB:canary:*/')
     g.raw('} // verus!\nfn main() {}\n')
 
